@@ -336,7 +336,7 @@ FMT_CTOR = 'cadence::builder::MetricFormatter::'
 
 def rule_decoration(fm, rep, rid='R1', kinds=True):
     cad = fm.cad
-    if kinds and not fm.need_roles(rep):
+    if kinds and not fm.need_roles(rep, ('prefix', 'key', 'val', 'type')):
         return
     n = 0
     for tr, meth, plain, kind, mty, vtr, b in tagged_bodies(cad):
@@ -407,7 +407,7 @@ def rule_decoration(fm, rep, rid='R1', kinds=True):
 
 def rule_tag_plumbing(fm, rep, rid='R2'):
     cad = fm.cad
-    if not fm.need_roles(rep):
+    if not fm.need_roles(rep, ('tags',)):
         return
     # builder setters
     for meth, shape in (('with_tag', 'kv'), ('with_tag_value', 'v'), ('with_container_id', 'cid')):
@@ -538,7 +538,7 @@ def rule_tag_plumbing(fm, rep, rid='R2'):
 
 def rule_container_override(fm, rep, rid='R3'):
     cad = fm.cad
-    if not fm.need_roles(rep):
+    if not fm.need_roles(rep, ('cid',)):
         return
     b = cad.bodies.get("cadence::builder::MetricFormatter::<'a>::with_container_id")
     if b is None:
